@@ -155,7 +155,7 @@ class Gen:
             t = r.choice(self.targets) if self.targets and r.random() < 0.7 else "missing-target"
             return r.choice([f"[{w}](#{t})", f"[](#{t})", f"<project:#{t}>"])
         if k == "intlink":
-            return r.choice([f"[{w}](other.md)", f"[{w}](./x/y.md#z)", "[](nofile.txt)"])
+            return r.choice([f"[{w}](other.md)", f"[{w}](./x/y.md#z)", "[](nofile.txt)", f"[{w}](README.md)", f"[{w}](Docs/API.md#Sec-One)", f"[{w}](<My  File.md>)", f"![{w}](Img/Pic.PNG)"])
         return w
 
     def text_line(self, m, n_inl=None):
